@@ -78,6 +78,7 @@ pub fn config(a: &Args) -> Config {
         hang_secs: a.num("hang-secs", 20),
         max_viol_sigs: a.num("max-viol-sigs", 64) as usize,
         grace_secs: a.num("grace-secs", 3),
+        audit: a.num("audit", 0) > 0,
     }
 }
 
